@@ -2,6 +2,10 @@
 
 Program: {"libs": [names; "G" = the module-level global library], "ops": [[lib, tag_name], ...]}
 Programs that use "G" are executed in a fresh interpreter (the global library is process-wide state).
+A program with "cold": true makes the FIRST add_tag of every library before any other operation was ever called on that
+library (no itemize / len / lookup in between: state that a library creates lazily does not exist yet); a library is observed
+only from its first add_tag on, and "is this name the library object's own attribute?" is answered from the driver's own record
+of the adds that succeeded instead of from itemize().
 """
 import concurrent.futures as cf
 import json
@@ -44,10 +48,14 @@ def _run(prog):
     def lib_names(name):
         return [n for n, _ in (Tags.itemize() if name == "G" else libs[name].itemize())]
 
+    cold = bool(prog.get("cold"))
+    warm = []                     # cold programs: the libraries that had their first add_tag
+    added_ok = {}
+
     def reserved(name, tag):
         """Does `tag` already resolve on the library object (without being one of its tags)?"""
         try:
-            if tag in lib_names(name):
+            if (tag == "NONE" or tag in added_ok.get(name, ())) if cold else (tag in lib_names(name)):
                 return False
             if name == "G":
                 return tag in vars(Tags) or hasattr(Tags.TagLibrary(), tag)
@@ -66,7 +74,7 @@ def _run(prog):
 
     def obs():
         out = []
-        for name in libs:
+        for name in (warm if cold else libs):
             g = name == "G"
             o = {"lib": name, "global": g}
             try:
@@ -108,7 +116,7 @@ def _run(prog):
 
     for name in prog["libs"]:
         libs[name] = None if name == "G" else Tags.TagLibrary()
-        events.append({"op": "new_lib", "lib": name, "obs": obs()})
+        events.append({"op": "new_lib", "lib": name, "cold": cold, "obs": obs()})
     for name, tag in prog["ops"]:
         res = reserved(name, tag)
         exc = None
@@ -121,7 +129,11 @@ def _run(prog):
             exc = e
         if tag not in used:
             used.append(tag)
-        events.append({"op": "add_tag", "lib": name, "name": tag, "reserved": bool(res),
+        if exc is None:
+            added_ok.setdefault(name, []).append(tag)
+        if name not in warm:
+            warm.append(name)
+        events.append({"op": "add_tag", "lib": name, "name": tag, "reserved": bool(res), "cold": cold,
                        "out": "ok" if exc is None else err(exc), "obs": obs()})
     return events
 
@@ -166,15 +178,47 @@ def run_programs(progs):
     return res
 
 
-def random_program(rng, use_global, length=10):
+_DISCOVERED = None
+
+
+def discovered_names():
+    """Attribute names of a live, used library object and of its class (and of the module, for the global library) that the fixed
+    lists above do not contain - "names equal to the library's own attribute and method names" read off the implementation under
+    test, so that an attribute the library creates lazily is offered as a tag name too.  Chosen from the public objects, never
+    from an expected result."""
+    global _DISCOVERED
+    if _DISCOVERED is None:
+        import ECAgent.Tags as Tags
+        lib = Tags.TagLibrary()
+        try:
+            lib.add_tag("zz_probe")
+            lib.itemize()
+            lib.get_tag_name(0)
+            len(lib)
+            getattr(lib, "zz_probe")
+        except Exception:  # noqa: BLE001
+            pass
+        loc = (set(vars(lib)) | set(vars(type(lib)))) - {"zz_probe", "NONE"}
+        glob = {n for n in vars(Tags) if isinstance(n, str)}
+        known = set(LOCAL_RESERVED) | set(GLOBAL_RESERVED) | set(ARBITRARY) | set(BUILTIN_NAMES) | set(ORDINARY)
+        _DISCOVERED = (sorted(n for n in loc if isinstance(n, str) and n not in known), sorted(glob - known - loc))
+    return _DISCOVERED
+
+
+def random_program(rng, use_global, length=10, cold=False):
     libs = ["L1", "L2"] + (["G"] if use_global else [])
     if rng.random() < 0.3:
         libs = libs[1:]
-    pool = ORDINARY * 3 + ["NONE"] + LOCAL_RESERVED + ARBITRARY + ((GLOBAL_RESERVED + BUILTIN_NAMES) if use_global else [])
+    dloc, dglob = discovered_names()
+    special = LOCAL_RESERVED + dloc * 3 + ((GLOBAL_RESERVED + BUILTIN_NAMES + dglob) if use_global else [])
+    pool = ORDINARY * 3 + ["NONE"] + ARBITRARY + special
     ops = []
-    for _ in range(length):
-        ops.append([rng.choice(libs), rng.choice(pool)])
-    return {"libs": libs, "ops": ops}
+    for k in range(length):
+        ops.append([rng.choice(libs), rng.choice(special if (cold and k < len(libs) + 1 and rng.random() < 0.7) else pool)])
+    prog = {"libs": libs, "ops": ops}
+    if cold:
+        prog["cold"] = True
+    return prog
 
 
 def program_from_walk(walk):
